@@ -43,48 +43,129 @@ def dumpsMRest (ea : Bool) : JMembers → Str
   | .cons k v t => ',' :: ' ' :: (encodeStr ea k ++ (':' :: ' ' :: (dumps ea v ++ dumpsMRest ea t)))
 end
 
-/-! ### the encoder's view of a Python value: `default=` hook -/
+/-! ### dictionary keys, `sort_keys`, `skipkeys`, `allow_nan` -/
+
+/-- the text json writes for a key (`none` for a key it has no rule for) -/
+def PyKey.text : PyKey → Option Str
+  | .str s => some s
+  | .int i => some (fmtD i)
+  | .float t => some t.tok
+  | .bool b => some (if b then "true".toList else "false".toList)
+  | .none => some "null".toList
+  | .other _ => Option.none
+
+inductive KeyRes where
+  | key (s : Str)
+  | skip
+  | fail (e : Err)
+
+/-- `encoder_listencode_dict` on one key: `str` / `float` (refused with `ValueError` when non-finite and
+`allow_nan=False`) / `True False None` / `int`; anything else is skipped under `skipkeys=True` and a
+`TypeError` otherwise.  `default=` plays no role here. -/
+def coerceKey (o : Opts) : PyKey → KeyRes
+  | .str s => .key s
+  | .int i => .key (fmtD i)
+  | .float t => if o.allowNan || !t.nonFinite then .key t.tok else .fail .valueError
+  | .bool b => .key (if b then "true".toList else "false".toList)
+  | .none => .key "null".toList
+  | .other _ => if o.skipKeys then .skip else .fail .typeError
+
+/-- comparability class of a key under `<`: `str` | numbers (`int`, `float`, `bool`) | `None` | other -/
+def PyKey.cls : PyKey → Nat
+  | .str _ => 0
+  | .int _ => 1
+  | .float _ => 1
+  | .bool _ => 1
+  | .none => 2
+  | .other _ => 3
+
+def PyMembers.keyList : PyMembers → List PyKey
+  | .nil => []
+  | .cons k _ t => k :: PyMembers.keyList t
+
+/-- `sorted(dct.items())` compares keys with `<`: with keys of two different classes some comparison
+crosses the classes and raises `TypeError` (`'<' not supported between instances of 'str' and 'int'`);
+a dict with fewer than two keys is never compared.  (Keys of a real dict are pairwise distinct.) -/
+def sortFails (ms : PyMembers) : Bool :=
+  match ms.keyList with
+  | [] => false
+  | k :: ks => ks.any (fun k' => k'.cls != k.cls)
+
+/-- two or more number keys: their order needs numeric comparison of float tokens, which the model
+does not carry (`sort_keys` is off in loguru; the branch exists for the refuted alternative only) -/
+def sortUnmodelled (ms : PyMembers) : Bool :=
+  match ms.keyList with
+  | [] => false
+  | k :: ks => !ks.isEmpty && k.cls == 1
+
+/-- what `sort_keys=True` does before any member is encoded -/
+def sortOutcome (o : Opts) (ms : PyMembers) : Option Err :=
+  if o.sortKeys then
+    if sortFails ms then some .typeError
+    else if sortUnmodelled ms then some .other
+    else Option.none
+  else Option.none
+
+/-- stable insertion sort of an object's members by key text (code point order = Python's `str` order);
+exact for `str` keys, where the JSON key is the Python key -/
+def JMembers.insertByKey (k : Str) (v : JVal) : JMembers → JMembers
+  | .nil => .cons k v .nil
+  | .cons k' v' t => if k' < k then .cons k' v' (JMembers.insertByKey k v t) else .cons k v (.cons k' v' t)
+
+def JMembers.sortByKey : JMembers → JMembers
+  | .nil => .nil
+  | .cons k v t => JMembers.insertByKey k v (JMembers.sortByKey t)
+
+/-! ### the encoder's view of a Python value: `default=` hook, key coercion -/
 mutual
-/-- `useDefault = true` is `default=str`: an object without an encoding rule becomes the JSON string
+/-- `o.useDefault = true` is `default=str`: an object without an encoding rule becomes the JSON string
 `str(obj)`; the call fails exactly when `str(obj)` fails.  Without the hook it is a `TypeError`. -/
-def toJson (useDefault : Bool) (strOf : Nat → Except Err Str) : PyVal → Except Err JVal
+def toJson (o : Opts) (strOf : Nat → Except Err Str) : PyVal → Except Err JVal
   | .none => .ok .null
   | .bool b => .ok (.bool b)
   | .int i => .ok (.int i)
-  | .float t => .ok (.float t)
+  | .float t => if o.allowNan || !t.nonFinite then .ok (.float t) else .error .valueError
   | .str s => .ok (.str s)
   | .list xs =>
-    match toJsonList useDefault strOf xs with
+    match toJsonList o strOf xs with
     | .ok ys => .ok (.arr ys)
     | .error e => .error e
   | .dict ms =>
-    match toJsonMembers useDefault strOf ms with
-    | .ok ys => .ok (.obj ys)
-    | .error e => .error e
-  | .opaque o =>
-    if useDefault then
-      match strOf o with
+    match sortOutcome o ms with
+    | some e => .error e
+    | Option.none =>
+      match toJsonMembers o strOf ms with
+      | .ok ys => .ok (.obj (if o.sortKeys then ys.sortByKey else ys))
+      | .error e => .error e
+  | .opaque x =>
+    if o.useDefault then
+      match strOf x with
       | .ok s => .ok (.str s)
       | .error e => .error e
     else .error .typeError
-def toJsonList (useDefault : Bool) (strOf : Nat → Except Err Str) : PyList → Except Err JList
+def toJsonList (o : Opts) (strOf : Nat → Except Err Str) : PyList → Except Err JList
   | .nil => .ok .nil
   | .cons v t =>
-    match toJson useDefault strOf v with
+    match toJson o strOf v with
     | .error e => .error e
     | .ok j =>
-      match toJsonList useDefault strOf t with
+      match toJsonList o strOf t with
       | .error e => .error e
       | .ok js => .ok (.cons j js)
-def toJsonMembers (useDefault : Bool) (strOf : Nat → Except Err Str) : PyMembers → Except Err JMembers
+/-- members in insertion order; per member the key is coerced first, then the value is encoded -/
+def toJsonMembers (o : Opts) (strOf : Nat → Except Err Str) : PyMembers → Except Err JMembers
   | .nil => .ok .nil
   | .cons k v t =>
-    match toJson useDefault strOf v with
-    | .error e => .error e
-    | .ok j =>
-      match toJsonMembers useDefault strOf t with
+    match coerceKey o k with
+    | .fail e => .error e
+    | .skip => toJsonMembers o strOf t
+    | .key ks =>
+      match toJson o strOf v with
       | .error e => .error e
-      | .ok js => .ok (.cons k j js)
+      | .ok j =>
+        match toJsonMembers o strOf t with
+        | .error e => .error e
+        | .ok js => .ok (.cons ks j js)
 end
 
 /-! the opaque objects of a value, in encoding order -/
@@ -102,14 +183,42 @@ def opaquesMembers : PyMembers → List Nat
   | .cons _ v t => opaques v ++ opaquesMembers t
 end
 
+/-- the id of a key json has no rule for -/
+def PyKey.bad : PyKey → List Nat
+  | .other n => [n]
+  | _ => []
+
+/-! the dictionary keys of a value (at any depth) that json has no rule for -/
+mutual
+def badKeys : PyVal → List Nat
+  | .list xs => badKeysList xs
+  | .dict ms => badKeysMembers ms
+  | _ => []
+def badKeysList : PyList → List Nat
+  | .nil => []
+  | .cons v t => badKeys v ++ badKeysList t
+def badKeysMembers : PyMembers → List Nat
+  | .nil => []
+  | .cons k v t => k.bad ++ (badKeys v ++ badKeysMembers t)
+end
+
 /-! ### reading a path (used to state "mirrors the record") -/
+/-- the first member whose JSON key text is `k` -/
 def PyMembers.find (k : Str) : PyMembers → Option PyVal
   | .nil => none
-  | .cons k' v t => if k' = k then some v else PyMembers.find k t
+  | .cons k' v t => if k'.text = some k then some v else PyMembers.find k t
 
+/-- the JSON key texts, in order (a key without a rule has none) -/
 def PyMembers.keys : PyMembers → List Str
   | .nil => []
-  | .cons k _ t => k :: PyMembers.keys t
+  | .cons k _ t =>
+    match k.text with
+    | some s => s :: PyMembers.keys t
+    | Option.none => PyMembers.keys t
+
+def PyMembers.length : PyMembers → Nat
+  | .nil => 0
+  | .cons _ _ t => PyMembers.length t + 1
 
 def PyVal.get : List Str → PyVal → Option PyVal
   | [], v => some v
@@ -153,9 +262,12 @@ def exceptionValue (r : Record) : PyVal :=
 def serializable (text : Str) (r : Record) : PyVal :=
   Gen.serializable (.str text) r (exceptionValue r)
 
+/-- the keyword arguments of the `json.dumps` call, as REGENERATED from the source -/
+def genOpts : Opts := ⟨Gen.defaultIsStr, Gen.sortKeys, Gen.skipKeys, Gen.allowNan⟩
+
 /-- `Handler._serialize_record(text, record)` -/
 def serializeRecord (strOf : Nat → Except Err Str) (text : Str) (r : Record) : Except Err Str :=
-  match toJson Gen.defaultIsStr strOf (serializable text r) with
+  match toJson genOpts strOf (serializable text r) with
   | .ok j => .ok (dumps Gen.ensureAscii j ++ Gen.suffix)
   | .error e => .error e
 
@@ -164,6 +276,28 @@ colourises), serialisation wraps it last. -/
 def emit (serialize : Bool) (strOf : Nat → Except Err Str) (formatted : Str) (r : Record) :
     Except Err Str :=
   if serialize && Gen.serializeAfterFormatting then serializeRecord strOf formatted r else .ok formatted
+
+/-- what one `Handler.emit` call comes to, seen from outside: the sink was handed one message, or the
+error went back into the logging call, or it was reported on stderr and the record dropped -/
+inductive Outcome where
+  | wrote (s : Str)
+  | raised (e : Err)
+  | reported (e : Err)
+  deriving DecidableEq
+
+/-- `Handler.emit` with its `try … except Exception:` clause (REGENERATED `Gen.onError`): `catchErr` is the
+handler's `catch=` argument (`ErrorInterceptor.should_catch()`) -/
+def handlerEmit (catchErr serialize : Bool) (strOf : Nat → Except Err Str) (formatted : Str) (r : Record) : Outcome :=
+  match emit serialize strOf formatted r with
+  | .ok s => .wrote s
+  | .error e =>
+    match Gen.onError catchErr with
+    | .reraise => .raised e
+    | .report => .reported e
+
+/-- the messages a sink has received after a history of calls on one handler (oldest first) -/
+def sinkLines (catchErr serialize : Bool) (strOf : Nat → Except Err Str) (h : List (Str × Record)) : List Str :=
+  h.filterMap (fun p => match handlerEmit catchErr serialize strOf p.1 p.2 with | .wrote s => some s | _ => none)
 
 /-- a long-lived handler fed a history of (formatted text, record) pairs.  `_serialize_record` is a
 static function of its two arguments (`Gen.serializeIsPure`, checked on the AST), so the i-th line
